@@ -20,6 +20,18 @@ CHECKS = {
         "bound_text": "expression families (<= budget operator/wrapper nodes, sandwiches, chains, e-op-e, all operator trees with <= treeops operators, if/else) in 16 embeddings; statement trees of depth <= 1 (quick) / 2 (thorough) with output in 8 body positions; loops <= 2 iterations; operand kinds nil/int/bool (+float in thorough) symbolic, literal values symbolic",
         "assumptions": ["reference evaluator (harness/internal/vsess/ref.go) is the Readme's semantics; left open by the language description and therefore not followed: shift counts outside 0..63, >> of negative ints, s[i] for non-ASCII bytes, lock-step loops over generators with side effects, read/exit"],
     },
+    "C04": {
+        "runs": [
+            {"harness": ["internal/vsess.VerifC04Shadow"], "pkgs": ["./internal/vsess"], "fuel": 6000000,
+             "params_quick": {"pool": 2, "maxstmts": 2}, "params_thorough": {"pool": 3, "maxstmts": 2},
+             "covers": {"VerifC04Shadow": ["done"]}},
+            {"harness": ["internal/vsess.VerifC04Closure", "internal/vsess.VerifC04Passing", "internal/vsess.VerifC04Recursion"], "pkgs": ["./internal/vsess"], "fuel": 6000000,
+             "params_quick": {"pool": 2}, "params_thorough": {"pool": 3},
+             "covers": {"VerifC04Closure": ["done"], "VerifC04Passing": ["done"], "VerifC04Recursion": ["done"]}},
+        ],
+        "bound_text": "functions with 1 parameter and <= 3 statements (assignment, for, if) over a 3-name pool shared by globals/parameters/locals/loop variables; closures with one parameter capturing the definer's variables, leaving directly / by return / inside an array / by value; function values routed through up to 2 foreign functions; recursion depth <= 3; all literals symbolic",
+        "assumptions": ["reference evaluator implements the Readme's scoping rule (own variable, else variable of the immediately enclosing function, else global; a name becomes local from its first assignment in text order)"],
+    },
     "C05": {
         "runs": [
             {"harness": ["internal/vsess.VerifC05Expr"], "pkgs": ["./internal/vsess"], "fuel": 3000000,
@@ -127,6 +139,7 @@ CHECKS = {
 }
 
 LEVEL_TEXT = {
+    "C04": "Differential symbolic execution against the reference evaluator on generated programs whose variable names are drawn from a small pool so that globals, parameters, locals, loop variables and captured variables collide in every combination; after every call each global is read back on both sides and every returned closure is called after other calls have reused the stack. Literal values are symbolic, so agreement is a solver verdict over all values.",
     "C01": "Differential symbolic execution: the real pipeline and a reference evaluator written from the language description are both interpreted from SSA on the same generated tree with the same symbolic literals and preset globals; equality of error class, result value and written output is a solver-decided assertion for all values on every explored shape (promotion, overflow, zero divisors, index bounds, nil/type errors are models the solver must exclude).",
     "C12": "Implementation against implementation: two spellings of the same computation are compiled and run symbolically in two sessions sharing the same symbolic global values; equality of error class and of the result value for all operand kinds/values is a solver-decided assertion per explored shape. Conditions of if/while of symbolic kind must be errors exactly when the kind is not bool.",
     "C09": "The compiler and VM are executed symbolically on generated statements in used/discarded/returning positions; after every run (normal, return, runtime error) the operand stack pointer, frame stack, closure stack, live iterator contexts and the main instruction pointer are read through accessors and must be back at their idle values, and a loop run 1 vs N>128 times must leave the operand stack array equally long. Operand kinds and literal values are solver variables, so which branch of a conditional runs in an iteration is decided by the solver.",
